@@ -93,7 +93,7 @@ class CFG(object):
     def live_nodes(self, skip_labels=()):
         return self.reachable(self.entry, skip_labels=skip_labels)
 
-    def path(self, start, goal, avoid=(), skip_labels=(), include_start=True):
+    def path(self, start, goal, avoid=(), skip_labels=(), include_start=True, avoid_edges=()):
         """A shortest witness path start -> goal (goal: node or set) avoiding
         *avoid*; None if there is none.  With include_start=False the path has
         at least one edge (start itself is neither tested against the goals nor
@@ -103,7 +103,11 @@ class CFG(object):
         from collections import deque
         prev = {}
         dq = deque()
-        init = [start] if include_start else self.succs(start, skip_labels)
+        avoid_edges = set(avoid_edges)
+
+        def nxt(n):
+            return [t for t, l in n.succ if l not in skip_labels and (n, l) not in avoid_edges]
+        init = [start] if include_start else nxt(start)
         for t in init:
             if t not in avoid and t not in prev:
                 prev[t] = None
@@ -117,18 +121,18 @@ class CFG(object):
                 if not include_start:
                     out.append(start)
                 return list(reversed(out))
-            for t in self.succs(n, skip_labels):
+            for t in nxt(n):
                 if t not in prev and t not in avoid:
                     prev[t] = n
                     dq.append(t)
         return None
 
-    def must_pass(self, start, goals, through, skip_labels=(), include_start=False):
+    def must_pass(self, start, goals, through, skip_labels=(), include_start=False, through_edges=()):
         """True iff every path from *start* to any node of *goals* enters a node
         of *through*.  Returns (ok, witness_path)."""
         goals = set(goals) - set(through)
         p = self.path(start, goals, avoid=through, skip_labels=skip_labels,
-                      include_start=include_start)
+                      include_start=include_start, avoid_edges=through_edges)
         return (p is None), p
 
     def dominated_by(self, node, doms, skip_labels=('exc',)):
